@@ -4,6 +4,7 @@ C10 — Literate documents: prose is inert and named code blocks are isolated.
 Statements are about the model of Model/Doc.lean, for every statement semantics `exec`
 (`none` = error), every store, every document.
 -/
+import MechVerif.Gen.SectionArms
 import MechVerif.Model.Doc
 namespace MechVerif.Doc
 
@@ -216,3 +217,41 @@ theorem C10_named_invisible_to_main (exec : σ → τ → Option σ) (init : σ)
   exact (C10_named_fences_do_not_affect_main exec init _ _ d this).1
 
 end MechVerif.Doc
+
+/-! ### the arms of `section_element()` as they are written
+
+`Gen/SectionArms.lean` is regenerated from src/interpreter/src/mechdown.rs on every run (`tools/extract_section.py`); its
+theorem `C10_section_arms_as_written_ok` is a `decide` proof: every arm but those of Mech code, fenced Mech code, a floated
+element's wrapper and a Mika section runs no statement, and the fenced-code arm decides as recorded. -/
+namespace MechVerif.SectionArms
+open MechVerif.Doc
+
+variable {σ τ : Type}
+
+/-- **The fenced-code arm as written is the model's step**: a disabled fence does nothing; an unnamed fence runs its
+    statements in the main store and its first error aborts; a named fence runs in the store of its name (created on
+    first use) and its first error only ends that fence. -/
+theorem C10_fence_arm_as_written_is_the_model (exec : σ → τ → Option σ) (init : σ) (d : DState σ) (ss : List τ) (n : String) :
+    fenceStep Gen.SectionArms.fence exec init d true none ss = stepElem exec init d (.disabled ss) ∧
+    fenceStep Gen.SectionArms.fence exec init d true (some n) ss = stepElem exec init d (.disabled ss) ∧
+    fenceStep Gen.SectionArms.fence exec init d false none ss = stepElem exec init d (.unnamed ss) ∧
+    fenceStep Gen.SectionArms.fence exec init d false (some n) ss = stepElem exec init d (.named n ss) :=
+  ⟨rfl, rfl, rfl, rfl⟩
+
+/-- every element the extracted table classes as inert or inline is one the model treats as prose -/
+theorem C10_inert_arms_are_prose (v : String) (c : ArmClass) (h : (v, c) ∈ Gen.SectionArms.arms)
+    (hc : c = .inert ∨ c = .inline) : expectedClass v = c ∧ v ≠ "MechCode" ∧ v ≠ "FencedMechCode" := by
+  have hok := Gen.SectionArms.C10_section_arms_as_written_ok.1
+  simp only [armsOk, Bool.and_eq_true, List.all_eq_true] at hok
+  have h1 := hok.1 (v, c) h
+  simp only [beq_iff_eq] at h1
+  refine ⟨h1.symm, ?_, ?_⟩
+  · intro hv; subst hv; simp [expectedClass] at h1; subst h1; rcases hc with hc | hc <;> cases hc
+  · intro hv; subst hv; simp [expectedClass] at h1; subst h1; rcases hc with hc | hc <;> cases hc
+
+/-! non-vacuity: a fence arm that isolated errors of the unnamed program, or ran a named fence in the main store, is refused -/
+example : fenceOk ⟨true, true, true, true, true, true⟩ = false := by decide
+example : fenceOk ⟨true, true, false, false, true, true⟩ = false := by decide
+example : armsOk [("MechCode", .code), ("CodeBlock", .code)] = false := by decide
+
+end MechVerif.SectionArms
